@@ -273,7 +273,7 @@ func (c countingItem) ToBytes() []byte { c.encodes.Add(1); return c.Item.ToBytes
 
 func TestC12Immutable(t *testing.T) {
 	ev.Rule("items by provenance {constructed from retained caller slices (typed and untyped, nested lists built from a retained []Item), Decode of a caller buffer} and messages by provenance {NewDataMessage over such an item, DecodeHSMSMessage / DecodeHSMSPayload of a caller buffer, re-stamped and derived copies}; plan: 8 goroutines snapshot every public observation at once (first use of all lazy paths), then the caller scribbles over every retained input and over every slice returned by ToBinary/ToBoolean/ToInt/ToUint/ToFloat/ToList/ToBytes/AppendTo (incl. spare capacity)/AppendBinaryTo/AppendBodyTo, re-snapshotting after each; oracle: all snapshots equal, no race report (binary built with -race), Item() returns one instance to every holder and copy, a counting Item wrapper is serialized at most once per message; non-trivial = a scribbled slice belongs to a leaf with >= 2 elements or to a list")
-	vt.Check(t, 1600, 60000, func(rt *rapid.T) {
+	vt.Check(t, 1600, 24000, func(rt *rapid.T) {
 		v := gen.Value(rt, gen.Opts{MaxDepth: 5, Budget: 1200, NoBigCounts: true})
 		var scribbles []func()
 		nontrivial := false
